@@ -1002,6 +1002,33 @@ impl Prop for C19 {
         c.close("doc.star");
         let _ = c.definition("doc.star", 0, 0).map(|_| r.evals += 1);
         let _ = c.definition("never-opened.star", 3, 3).map(|_| r.evals += 1);
+        // reopen after close, as editors do: version numbers start again at 1; a later change must be taken into account
+        c.version = 0;
+        c.open("doc.star", &text);
+        c.change("doc.star", &text2);
+        if let Some(u) = doc2.uses.iter().find(|u| !doc2.loaded.iter().any(|l| l.0 == u.name)) {
+            let col16 = utf16_col(&doc2.lines[u.line], u.byte_col);
+            let non_ascii_before = !doc2.lines[u.line][..u.byte_col].is_ascii();
+            if let Ok(resp) = c.definition("doc.star", u.line as u32, col16) {
+                r.evals += 1;
+                r.label("reopened");
+                let loc = resp["result"].as_array().and_then(|a| a.first()).cloned();
+                match loc {
+                    Some(loc) if loc.get("targetUri").or(loc.get("uri")).and_then(|x| x.as_str()) == Some(Client::uri("doc.star").as_str()) => {
+                        let range = if loc.get("targetUri").is_some() { &loc["targetSelectionRange"] } else { &loc["range"] };
+                        let gl = range["start"]["line"].as_u64().unwrap_or(0) as usize;
+                        let astral_target = doc2.lines.get(gl).map(|l| l.chars().any(|c| (c as u32) > 0xFFFF)).unwrap_or(false);
+                        if range_text(&text2, range).as_deref() != Some(u.name.as_str()) && !non_ascii_before && !astral_target {
+                            probs.push(("stale-after-reopen".into(), format!("after didClose, didOpen (version 1) and didChange (version 2) the definition of `{}` (use at line {}) covers {:?} of the current text - the change was not taken into account\n--- current text\n{text2}", u.name, u.line + 1, range_text(&text2, range))));
+                        }
+                    }
+                    None if !non_ascii_before => {
+                        probs.push(("stale-after-reopen".into(), format!("after didClose, didOpen and didChange there is no definition for `{}` at line {} of the current text\n--- current text\n{text2}", u.name, u.line + 1)));
+                    }
+                    _ => {}
+                }
+            }
+        }
         // diagnostics ranges
         let diags = std::mem::take(&mut c.diagnostics);
         let versions = [&text, &text2, &broken];
